@@ -17,6 +17,7 @@ CONSTANTS MaxN,        \* bound on leaves ever added
           MaxStack,    \* undo records kept (reorganisation depth)
           MaxUnd,      \* number of Undo calls per behaviour
           MaxRst,      \* number of Restore calls per behaviour
+          MaxProbe,    \* number of queries (Prove + Verify everywhere) recorded inside a history
           Acts,        \* enabled actions: subset of {"mod","undo","prove","restore","enc"}
           MaxPerm      \* request orders: all permutations up to this size
 
@@ -97,7 +98,7 @@ Encs(D) ==
 (***************************************************************************)
 (* Actions                                                                 *)
 (***************************************************************************)
-Init == /\ n = 0 /\ live = {} /\ stack = <<>> /\ marks = [und |-> 0, rst |-> 0]
+Init == /\ n = 0 /\ live = {} /\ stack = <<>> /\ marks = [und |-> 0, rst |-> 0, probe |-> 0]
         /\ hist = <<>>
 
 Push(rec) == IF MaxStack = 0 THEN <<>>
@@ -131,13 +132,22 @@ Undo ==
          /\ hist' = Append(hist, step)
          /\ Emit(step, Obs(prev.n, prev.live))
 
-\* asking a prover for the live leaves S in request order `ord'
+\* asking a prover for the live leaves S in request order `ord', and giving
+\* the canonical proof to every verifier.  A query does not change the
+\* abstract state; up to MaxProbe queries per behaviour are nevertheless
+\* recorded in the history, so that behaviours in which a query precedes
+\* further blocks and undos are generated (a query must not disturb what
+\* follows, e.g. through a cache that a later Undo forgets to invalidate).
 Prove ==
   /\ "prove" \in Acts
   /\ \E S \in SUBSET live \ {{}} :
        \E ord \in Orders(S) :
-          LET step == [a |-> "prove", s |-> ord]
-          IN  /\ UNCHANGED vars
+          LET step == [a |-> "prove", s |-> ord, pf |-> JProof(CanonProof(n, live, ord))]
+          IN  /\ IF marks.probe < MaxProbe
+                 THEN /\ marks' = [marks EXCEPT !.probe = @ + 1]
+                      /\ hist' = Append(hist, step)
+                      /\ UNCHANGED <<n, live, stack>>
+                 ELSE UNCHANGED vars
               /\ Emit(step, [pf |-> JProof(CanonProof(n, live, ord)),
                              trees |-> AscSeq(TreesOf(n, live, S)),
                              n |-> n, roots |-> Roots(n, live)])
